@@ -44,6 +44,7 @@ type Contract struct {
 	nooverflow bool // int theory: treat signed overflow as wrapping-free without obligations (spec functions)
 	hints    []*Clause
 	split    bool // one postcondition obligation per return site
+	noexec   string // reason why the contract is not executed against the real function
 	prepare  []string
 	frameWithout []string
 }
@@ -160,6 +161,11 @@ func parseContracts(pkg *packages.Package) ([]*Contract, error) {
 					// Go statement(s) run on generated inputs before the contract is executed
 					// (steers the bounded input generator into the precondition; not part of the proof)
 					cur.prepare = append(cur.prepare, rest)
+				case "noexec":
+					cur.noexec = rest
+					if cur.noexec == "" {
+						cur.noexec = "not executable"
+					}
 				case "mode":
 					cur.mode = rest
 				case "trusted":
